@@ -664,6 +664,7 @@ _CRED_HOPS = [
     b"http://a.example/same/2",          # same origin, spelled identically
     b"http://a.example:80/same/3",       # same origin, explicit default port
     b"https://a.example/other/scheme",   # other scheme (and port)
+    b"https://a.example:80/other/scheme/same/port",
     b"http://a.example:8080/other/port",
     b"http://a.example:443/other/port2",
     b"http://b.example/other/host",
@@ -690,8 +691,8 @@ class CredentialConfinement(Bounded):
              "Cookie/Proxy-Authorization/configured name outside the original origin; unchanged while on it")
     scope = ("both agents, original request GET (302/307 hops) or POST (303 hops) to http://a.example/x/y; 4 header "
              "sets (canonical, lower, upper and mixed-case spellings of the sensitive names, multi-valued Cookie, "
-             "configured names spelled differently from the sent header) x all chains of length 0..3 over 12 Locations: "
-             "relative, same origin (identical spelling, explicit :80), other scheme, other port (:8080, :443), other "
+             "configured names spelled differently from the sent header) x all chains of length 0..3 over 13 Locations: "
+             "relative, same origin (identical spelling, explicit :80), other scheme (default port, same port number), other port (:8080, :443), other "
              "host, host that has the original as prefix/suffix, userinfo 'a.example@b.example' and "
              "'a.example:80@b.example', and chains that leave and come back; plus seeded random chains of length 0..8 "
              "(quick 2000, thorough 30000); thorough adds length 4")
